@@ -348,4 +348,5 @@ CONTRACTS = [SplitSingleDim(dim, d) for dim in (1, 2, 3) for d in range(dim)] + 
 LEMMAS = []
 ASSUMPTIONS = ["split functions verified for dimension d in {1,2,3} (loop-free unrolling, complete for those d; coordinates fully symbolic)",
                "grid.get_mid_point is the unweighted midpoint (Grid.get_mid_point inlined from the real source)",
-               "coarsen_grid, the automatic extend/split decision, single-dimension split policy inside refine(), point assignment: layer B only"]
+               "refine() verified for d in {1,2} under its three policies; the parent benefits / twin errors that drive the automatic and single-dimension policies are arbitrary reals (their computation is layer B)",
+               "coarsen_grid (local combination), point assignment: layer B only"]
